@@ -125,19 +125,24 @@ def tie_stage(spec, data, tier, seed):
                 disagreements.append(dict(process=name, source="whole-run", **outb))
         stats.append(d)
         if hasattr(L, "fuzz") and hasattr(L, "FUNC"):
-            st3 = fuzzlib.direct_fuzz(L, nfuzz, seed)
+            nf = min(nfuzz, getattr(L, 'QUICK_N', nfuzz)) if tier == 'quick' else min(nfuzz, getattr(L, 'THOROUGH_N', nfuzz))
+            st3 = fuzzlib.direct_fuzz(L, nf, seed)
             d3 = st3.as_dict()
             d3["source"] = "direct fuzz"
             d3["ulp_ties"] = 0
             if st3.bad:
                 with rec.SharedLibm():
-                    st4 = fuzzlib.direct_fuzz(L, nfuzz, seed)
+                    st4 = fuzzlib.direct_fuzz(L, nf, seed)
                 if st4.bad == 0:
                     d3["ulp_ties"] = st3.bad
                     d3["disagreements"] = 0
                 else:
                     disagreements.append(dict(process=name, source="direct-fuzz", **st4.first_bad[0]))
             stats.append(d3)
+    for tie in spec.ties:
+        st_list, dis = tie(seed, tier)
+        stats += st_list
+        disagreements += dis
     return dict(stats=stats, missing=missing, disagreements=disagreements)
 
 
